@@ -1356,6 +1356,14 @@ def main():
     stats['model_requests'] = len(requests)
     stats['model_second_round'] = n_flag
     stats['model_disagreements'] = n_dis
+    # two scripts at the same time (harness/concurrent.py): each must compute what it computes alone
+    import concurrent as _cc
+    _problems, _n = _cc.isolation_cases(chk.rng, 25 if chk.thorough else 3)
+    stats['concurrent_pairs'] = _n
+    chk.count(_n)
+    for _p in _problems:
+        if _p['kind'] in ('printf', 'fault'):
+            chk.violation('stdout-bytes:concurrent-scripts', _p['what'], _p['replay'])
     chk.coverage['distribution'] = stats
     chk.coverage['rule'] = (
         'jobs: generated statement sequences (1-12 statements; print/println with and without '
